@@ -312,6 +312,55 @@ theorem inv_step {s s' : St} {a : Act} (hi : Inv s) (h : step s a = some s') (hd
     subst h
     exact ⟨hi.pendTru, hi.await, hi.loopEnd, hi.loopConst, hi.bc0, hi.bcPos, hi.snapOk⟩
 
+theorem snap_step {s s' : St} {a : Act} (hs : step s a = some s') (hsil : s'.silent = false) :
+    s.silent = false ∧ (s.snap = s.cache → s'.snap = s'.cache) := by
+  cases a <;> simp only [step] at hs
+  case change v =>
+    split at hs
+    · simp at hs
+    · split at hs <;> (simp only [Option.some.injEq] at hs; subst hs; exact ⟨hsil, fun h => h⟩)
+  case emitDup => split at hs <;> simp at hs; subst hs; exact ⟨hsil, fun h => h⟩
+  case subscribe => split at hs <;> simp at hs; subst hs; exact ⟨hsil, fun h => h⟩
+  case monFirst =>
+    split at hs
+    · split at hs
+      · split at hs
+        · simp only [Option.some.injEq] at hs; subst hs; exact ⟨hsil, fun h => h⟩
+        · simp only [Option.some.injEq] at hs; subst hs; exact ⟨hsil, fun _ => rfl⟩
+      · simp only [Option.some.injEq] at hs; subst hs; exact ⟨hsil, fun h => h⟩
+    · simp at hs
+  case monRecv =>
+    split at hs
+    · split at hs
+      · simp only [Option.some.injEq] at hs; subst hs; exact ⟨hsil, fun h => h⟩
+      · simp only [Option.some.injEq] at hs; subst hs; exact ⟨hsil, fun _ => rfl⟩
+    · simp at hs
+  case monExit => split at hs <;> simp at hs; subst hs; exact ⟨hsil, fun h => h⟩
+  case wRead => simp at hs; subst hs; exact ⟨hsil, fun h => h⟩
+  case wStore k => split at hs <;> simp at hs; subst hs; simp at hsil
+  case wStoreB k =>
+    split at hs
+    · rename_i v _
+      simp only [Option.some.injEq] at hs; subst hs
+      refine ⟨hsil, fun h => ?_⟩
+      dsimp only
+      by_cases hc : s.cache = some v
+      · simp only [hc, if_true]; rw [h, hc]
+      · simp [hc]
+    · simp at hs
+  case otherBcast => simp at hs; subst hs; exact ⟨hsil, fun _ => rfl⟩
+  case cancel => simp at hs; subst hs; exact ⟨hsil, fun h => h⟩
+
+/-- while no silent store has happened, the entry in the latest snapshot IS the cache entry: every change of the
+cache is made together with a broadcast -/
+theorem snap_eq_cache {t0 : State} {s : St} (h : Reach t0 s) : s.silent = false → s.snap = s.cache := by
+  induction h with
+  | init => intro _; rfl
+  | step _ hs ih =>
+    intro hsil
+    obtain ⟨h1, h2⟩ := snap_step hs hsil
+    exact h2 (ih h1)
+
 theorem inv_reach {t0 : State} {s : St} (h : Reach t0 s) : s.dirty = false → Inv s := by
   induction h with
   | init => intro _; exact inv_init t0
